@@ -62,6 +62,41 @@ Proof.
     destruct n as [|m]; [lia|]. simpl in H1. rewrite Nat.sub_0_r in H1. simpl. lia.
 Qed.
 
+(* sums over a shifted range *)
+Lemma wsumn_shift : forall m f a, wsumn (S m) (fun i => f (a + i)) = f a + wsumn m (fun i => f (S a + i)).
+Proof.
+  induction m as [|m IH]; intros f a.
+  - simpl. rewrite Nat.add_0_r. lia.
+  - change (wsumn (S (S m)) (fun i => f (a + i))) with (wsumn (S m) (fun i => f (a + i)) + f (a + S m)).
+    rewrite IH. simpl. replace (a + S m) with (S (a + m)) by lia. lia.
+Qed.
+
+Lemma wsumn_suffix_le : forall m f a, wsumn m (fun i => f (a + i)) <= wsumn (a + m) f.
+Proof.
+  induction m as [|m IH]; intros f a; simpl; [lia|].
+  replace (a + S m) with (S (a + m)) by lia. simpl. specialize (IH f a). lia.
+Qed.
+
+(* g exceeds f by at most 2, plus M where c holds *)
+Lemma wsumn_marked : forall n (f g : nat -> nat) (c : nat -> bool) M,
+  (forall j, j < n -> g j <= f j + 2 + (if c j then M else 0)) ->
+  wsumn n g <= wsumn n f + 2 * n + wsumn n (fun j => if c j then 1 else 0) * M.
+Proof.
+  induction n as [|n IH]; intros f g c M Hle; simpl; [lia|].
+  assert (H1 := IH f g c M (fun j Hj => Hle j (Nat.lt_lt_succ_r _ _ Hj))).
+  assert (H2 := Hle n (Nat.lt_succ_diag_r n)).
+  rewrite Nat.mul_add_distr_r. destruct (c n); lia.
+Qed.
+
+Lemma wsumn_affine : forall n (h : nat -> nat) a M, wsumn n (fun i => a + h i * M) = n * a + wsumn n h * M.
+Proof. induction n as [|n IH]; intros h a M; simpl; [reflexivity|]. rewrite IH, Nat.mul_add_distr_r. lia. Qed.
+
+Lemma wsumn_ext : forall n f g, (forall j, j < n -> f j = g j) -> wsumn n f = wsumn n g.
+Proof.
+  induction n as [|n IH]; intros f g He; simpl; [reflexivity|].
+  rewrite (IH f g (fun j Hj => He j (Nat.lt_lt_succ_r _ _ Hj))), (He n (Nat.lt_succ_diag_r n)). reflexivity.
+Qed.
+
 Section Measure.
 Variables N na : nat.
 
@@ -82,17 +117,21 @@ Definition wpot (p : wpc) (x : wst) : nat :=
 Definition wmax : nat := 10 + Kb.
 
 (* coordinator *)
-Definition Srun : nat := N * (9 + Kb).          (* pre-payment of CSetRun: every worker may go from (CvWait, WAIT) to (Woken, RUN) *)
-Definition PB : nat := 6 + Srun.                (* potential of one block of the for loop, at its first statement *)
+Definition cnt (b : nat) : nat := wsumn N (fun j => if in_block N na b j then 1 else 0).   (* trial steps of block b *)
+(* pre-payment of CSetRun in block b: its broadcast may wake every worker (2 each); a worker of the block goes from
+   (CvWait, WAIT) = 0 to (Woken, RUN) = 9 + Kb: one complete round *)
+Definition Srun (b : nat) : nat := cnt b * (7 + Kb) + 2 * N.
+Definition PB (b : nat) : nat := 6 + Srun b.    (* potential of block b of the for loop, at its first statement *)
 Definition Tl : nat := 3 * N + 5.               (* potential of the tail (lock, set TERMINATE + broadcast, unlock, joins, clean-up) *)
-Definition remb (b : nat) : nat := (nblocks N na - b - 1) * PB.   (* the blocks after block b *)
-Definition allb : nat := nblocks N na * PB.
+Definition remb (b : nat) : nat := wsumn (nblocks N na - b - 1) (fun i => PB (S b + i)).   (* the blocks after block b *)
+Definition allb : nat := wsumn (nblocks N na) PB.                                           (* all blocks *)
+Definition PBmax : nat := 6 + N * (7 + Kb) + 2 * N.
 Definition cpot (c : cpc) (b : nat) : nat :=
   let inblk r := Tl + remb b + r in
   match c with
-  | CCreate k => Tl + allb + 1
-  | CLockA => inblk PB
-  | CSetRun => inblk (5 + Srun)
+  | CCreate k => inblk (PB b) + 1
+  | CLockA => inblk (PB b)
+  | CSetRun => inblk (5 + Srun b)
   | CUnlockA => inblk 4
   | CLockB => inblk 3
   | CLoopB _ => inblk 2
@@ -116,12 +155,67 @@ Definition wsum (s : state) : nat := wsumn N (fun j => wpot (wp s j) (st s j)).
 Definition Phi (s : state) : nat := cpot (cp s) (blk s) + crt (cp s) (st s) + wsum s.
 
 (* the bounds *)
-Definition B0 : nat := Tl + allb + 3 * N + 1.
-Definition Bmax : nat := B0 + PB + N * (1 + 2 * wmax).
+Definition B0 : nat := Tl + remb 0 + PB 0 + 1 + 3 * N.
+Definition Bmax : nat := Tl + allb + PBmax + 1 + N * (1 + 2 * wmax).
 
-(* B0 written out *)
-Lemma B0_closed_form : B0 = (3 * N + 5) + ((na + N - 1) / N) * (6 + N * (9 + 2 * N)) + 3 * N + 1.
-Proof. reflexivity. Qed.
+Lemma cnt_le : forall b, cnt b <= N.
+Proof.
+  intro b. unfold cnt.
+  assert (H := wsumn_bound N (fun _ => 0) (fun j => if in_block N na b j then 1 else 0) 1).
+  rewrite (wsumn_const0 N (fun _ => 0)) in H by reflexivity. rewrite Nat.mul_1_r in H. apply H.
+  intros j _. destruct (in_block N na b j); lia.
+Qed.
+
+Lemma PB_le : forall b, PB b <= PBmax.
+Proof.
+  intro b. unfold PB, Srun, PBmax. assert (H : cnt b * (7 + Kb) <= N * (7 + Kb)) by (apply Nat.mul_le_mono_r, cnt_le). lia.
+Qed.
+
+Lemma remb_le : forall b, remb b <= allb.
+Proof.
+  intro b. unfold remb, allb. destruct (Nat.lt_ge_cases b (nblocks N na)) as [Hb|Hb].
+  - assert (H := wsumn_suffix_le (nblocks N na - b - 1) PB (S b)).
+    replace (S b + (nblocks N na - b - 1)) with (nblocks N na) in H by lia. exact H.
+  - replace (nblocks N na - b - 1) with 0 by lia. simpl. lia.
+Qed.
+
+(* B0 written out: 7 + 2N per trial step, 6 + 2N per block of the for loop, 6N + 6 for creation and termination *)
+Lemma cnt_min : forall b, cnt b = Nat.min N (na - b * N).
+Proof.
+  intro b. unfold cnt.
+  assert (H : forall n, n <= N -> wsumn n (fun j => if in_block N na b j then 1 else 0) = Nat.min n (na - b * N)).
+  { induction n as [|n IH]; intro Hn; [reflexivity|]. cbn [wsumn]. rewrite IH by lia. unfold in_block.
+    assert (E : (n <? N) = true) by (apply Nat.ltb_lt; lia). rewrite E. cbn [andb].
+    destruct (b * N + n <? na) eqn:E2; [apply Nat.ltb_lt in E2|apply Nat.ltb_ge in E2]; lia. }
+  apply H. lia.
+Qed.
+
+Lemma cnt_sum : forall m, wsumn m cnt = Nat.min (m * N) na.
+Proof. induction m as [|m IH]; [reflexivity|]. cbn [wsumn]. rewrite IH, cnt_min. rewrite Nat.mul_succ_l. lia. Qed.
+
+Lemma B0_closed_form : 1 <= N -> 1 <= na -> B0 = (6 * N + 6) + nblocks N na * (6 + 2 * N) + na * (7 + 2 * N).
+Proof.
+  intros HN Hna. unfold B0.
+  assert (Hq : na + N - 1 = N * nblocks N na + (na + N - 1) mod N) by (apply Nat.div_mod; lia).
+  assert (Hr : (na + N - 1) mod N < N) by (apply Nat.mod_upper_bound; lia).
+  assert (Hpos : 1 <= nblocks N na).
+  { destruct (nblocks N na) as [|q]; [|lia]. rewrite Nat.mul_0_r in Hq. lia. }
+  assert (Hcov : na <= nblocks N na * N) by (rewrite (Nat.mul_comm (nblocks N na) N); lia).
+  assert (Hall : remb 0 + PB 0 = allb).
+  { unfold remb, allb. destruct (nblocks N na) as [|m]; [lia|].
+    change (wsumn (S m) PB) with (wsumn (S m) (fun i => PB (0 + i))). rewrite wsumn_shift.
+    replace (S m - 0 - 1) with m by lia. lia. }
+  assert (Haff : allb = nblocks N na * (6 + 2 * N) + wsumn (nblocks N na) cnt * (7 + Kb)).
+  { unfold allb. rewrite <- wsumn_affine. apply wsumn_ext. intros b _. unfold PB, Srun. lia. }
+  rewrite cnt_sum in Haff. rewrite Nat.min_r in Haff by exact Hcov.
+  unfold Tl, Kb in *. lia.
+Qed.
+
+Lemma remb_next : forall b, S b < nblocks N na -> remb b = PB (S b) + remb (S b).
+Proof.
+  intros b Hb. unfold remb. replace (nblocks N na - b - 1) with (S (nblocks N na - S b - 1)) by lia.
+  apply wsumn_shift.
+Qed.
 
 Lemma wpot_le_wmax : forall p x, wpot p x <= wmax.
 Proof. intros p x. unfold wmax. destruct p, x; simpl; lia. Qed.
@@ -178,11 +272,11 @@ Proof.
   rewrite E, wsumn_const. rewrite wsumn_const0 by reflexivity. lia.
 Qed.
 
-Lemma cpot_le : forall c b, cpot c b <= B0 + PB.
+Lemma cpot_le : forall c b, cpot c b <= Tl + allb + PBmax + 1.
 Proof.
-  intros c b. unfold B0.
-  assert (Hr : remb b <= allb) by (apply Nat.mul_le_mono_r; lia).
-  assert (HS : Srun + 6 = PB) by (unfold PB; lia).
+  intros c b.
+  assert (Hr := remb_le b). assert (Hp := PB_le b).
+  assert (HS : Srun b + 6 = PB b) by (unfold PB; lia).
   destruct c as [k| | | | | | | | | | | |k| |]; cbn [cpot]; unfold Tl in *; lia.
 Qed.
 
@@ -192,7 +286,7 @@ Proof.
   assert (H1 := cpot_le (cp s) (blk s)). assert (H3 := crt_le (cp s) (st s)).
   assert (H2 : wsumn N (fun j => wpot (wp s j) (st s j)) <= wsumn N (fun _ => 0) + N * wmax).
   { apply wsumn_bound. intros j _. apply wpot_le_wmax. }
-  rewrite (wsumn_const0 N (fun _ => 0)) in H2 by reflexivity. lia.
+  rewrite (wsumn_const0 N (fun _ => 0)) in H2 by reflexivity. rewrite Nat.mul_add_distr_l. lia.
 Qed.
 
 (* ---- a worker step lowers Phi ---- *)
@@ -261,19 +355,11 @@ Proof.
   intros b sc r Hr. unfold loop_head.
   destruct ((S b <? nblocks N na) && negb sc) eqn:E; cbn [cpot]; [|lia].
   apply andb_prop in E. destruct E as [E _]. apply Nat.ltb_lt in E.
-  unfold remb. replace (nblocks N na - b - 1) with (S (nblocks N na - S b - 1)) by lia.
-  rewrite Nat.mul_succ_l. lia.
+  rewrite (remb_next b E). lia.
 Qed.
 
-Lemma loop_head0_pot : forall b, cpot (loop_head N na 0 false) b <= Tl + allb.
-Proof.
-  intros b. unfold loop_head.
-  destruct ((0 <? nblocks N na) && negb false) eqn:E; cbn [cpot]; [|lia].
-  apply andb_prop in E. destruct E as [E _]. apply Nat.ltb_lt in E.
-  assert (H : remb b + PB <= allb).
-  { unfold remb, allb. rewrite <- Nat.mul_succ_l. apply Nat.mul_le_mono_r. lia. }
-  lia.
-Qed.
+Lemma loop_head0_pot : forall b, cpot (loop_head N na 0 false) b <= Tl + remb b + PB b.
+Proof. intros b. unfold loop_head. destruct ((0 <? nblocks N na) && negb false); cbn [cpot]; lia. Qed.
 
 Lemma cstep_decreases : forall s s', cstep N na lt fixed s = Some s' -> Phi s' < Phi s.
 Proof.
@@ -293,12 +379,16 @@ Proof.
     unfold Phi, wsum. cbn [cp blk wp st set_cp set_mtx]. rewrite Hc. cbn [cpot crt]. unfold PB. lia.
   - (* CSetRun *) inversion Hs; subst s'; clear Hs.
     unfold Phi, wake_all. cbn [cp blk set_cp set_wp set_st set_alpha]. rewrite Hc. unfold wsum. cbn [wp st set_cp set_wp set_st set_alpha].
-    assert (H : wsumn N (fun j => wpot (wake_w (wp s j)) (if in_block N na (blk s) j then RUN else st s j))
-                <= wsumn N (fun j => wpot (wp s j) (st s j)) + N * (9 + Kb)).
-    { apply wsumn_bound. intros j _. destruct (in_block N na (blk s) j).
+    assert (H := wsumn_marked N (fun j => wpot (wp s j) (st s j))
+                   (fun j => wpot (wake_w (wp s j)) (if in_block N na (blk s) j then RUN else st s j))
+                   (in_block N na (blk s)) (7 + Kb)).
+    cbv beta in H. fold (cnt (blk s)) in H.
+    assert (H' : forall j, j < N -> wpot (wake_w (wp s j)) (if in_block N na (blk s) j then RUN else st s j)
+                                    <= wpot (wp s j) (st s j) + 2 + (if in_block N na (blk s) j then 7 + Kb else 0)).
+    { intros j _. destruct (in_block N na (blk s) j).
       - destruct (wp s j), (st s j); simpl; lia.
-      - assert (H := wake_w_pot (wp s j) (st s j)). lia. }
-    cbn [cpot crt]. unfold Srun. lia.
+      - assert (H' := wake_w_pot (wp s j) (st s j)). lia. }
+    specialize (H H'). cbn [cpot crt]. unfold Srun. lia.
   - (* CUnlockA *) inversion Hs; subst s'; clear Hs.
     unfold Phi, wsum. cbn [cp blk wp st set_cp set_mtx]. rewrite Hc. cbn [cpot crt]. lia.
   - (* CLockB *) destruct (free s); [|discriminate]. inversion Hs; subst s'; clear Hs.
@@ -490,7 +580,7 @@ Qed.
 End Live.
 
 (* ---- the bound on a concrete instance: N = 2 workers, na = 3 trial steps (2 blocks) ---- *)
-Lemma ex_bound : B0 2 3 = 82 /\ Bmax 2 3 = 172 /\ length ex_schedule <= B0 2 3 /\
+Lemma ex_bound : B0 2 3 = 71 /\ Bmax 2 3 = 155 /\ length ex_schedule <= B0 2 3 /\
   exists s, run 2 3 lt_ex true init ex_schedule = Some s /\ finished s /\ Phi 2 3 s = 0.
 Proof.
   split; [vm_compute; reflexivity|]. split; [vm_compute; reflexivity|]. split; [vm_compute; lia|].
